@@ -33,7 +33,10 @@ fn eval_tcp_throughput_inv(rtt: f64, target_rate_bps: u32) -> f64 {
     let mut a = 0.0;
     let mut b = 1.0;
 
-    loop {
+    // The target may be unreachable (e.g. a rate below what the equation yields for p = 1, or an
+    // RTT of zero), so the bisection is bounded: after 64 halvings a and b are indistinguishable
+    // and their midpoint is the closest loss rate there is.
+    for _ in 0 .. 64 {
         #[cfg(feature = "verif")]
         crate::verif::tick();
         let c = (b + a)/2.0;
@@ -58,6 +61,8 @@ fn eval_tcp_throughput_inv(rtt: f64, target_rate_bps: u32) -> f64 {
             return c;
         }
     }
+
+    return (b + a)/2.0;
 }
 
 #[derive(Debug,PartialEq)]
